@@ -85,12 +85,12 @@ pub fn map<I: Sync, R: Send>(items: &[I], f: impl Fn(usize, &I) -> R + Sync) -> 
 }
 
 /// Wall-clock budget of one check run (seconds): VERIF_BUDGET_S, default 480 for the quick tier and
-/// 2700 for the thorough tier. Engines stop starting new work when it is exhausted and report a cap
+/// 1200 for the thorough tier. Engines stop starting new work when it is exhausted and report a cap
 /// (the evidence then says `exhaustive: false` and names what was completed).
 pub fn remaining_budget_s() -> u64 {
     static START2: std::sync::OnceLock<std::time::Instant> = std::sync::OnceLock::new();
     let start = START2.get_or_init(std::time::Instant::now);
-    let default = if std::env::var("VERIF_TIER").map(|t| t == "thorough").unwrap_or(false) { 2700 } else { 480 };
+    let default = if std::env::var("VERIF_TIER").map(|t| t == "thorough").unwrap_or(false) { 1200 } else { 480 };
     let budget: u64 = std::env::var("VERIF_BUDGET_S").ok().and_then(|s| s.parse().ok()).unwrap_or(default);
     budget.saturating_sub(start.elapsed().as_secs())
 }
@@ -101,7 +101,7 @@ pub static PHASE_LIMIT_PERCENT: std::sync::atomic::AtomicU64 = std::sync::atomic
 pub fn over_budget() -> bool {
     static START: std::sync::OnceLock<std::time::Instant> = std::sync::OnceLock::new();
     let start = START.get_or_init(std::time::Instant::now);
-    let default = if std::env::var("VERIF_TIER").map(|t| t == "thorough").unwrap_or(false) { 2700 } else { 480 };
+    let default = if std::env::var("VERIF_TIER").map(|t| t == "thorough").unwrap_or(false) { 1200 } else { 480 };
     let budget: u64 = std::env::var("VERIF_BUDGET_S").ok().and_then(|s| s.parse().ok()).unwrap_or(default);
     let pct = PHASE_LIMIT_PERCENT.load(std::sync::atomic::Ordering::Relaxed);
     start.elapsed().as_secs() > budget * pct / 100
